@@ -325,7 +325,7 @@ def read_doc(path):
     if len(raw) == 0:
         return 'E', None
     try:
-        if path.endswith('.gz'):
+        if raw[:2] == b'\x1f\x8b' or path.endswith('.gz'):
             raw = gzip.decompress(raw)
         data = json.loads(raw.decode('utf-8'))
     except Exception:  # noqa: BLE001
@@ -469,6 +469,8 @@ def run_process(sc, rnd):
     tokens = []
     for put in rnd.get('puts', []):
         tokens.append(write_put(sc, put))
+    if rnd.get('puts'):
+        st['after_puts'] = read_doc(sc['out'])
     spec = list(rnd['spec'])
     n, sf = int(rnd['n']), int(rnd['sf'])
     tokens.append(f"S:{n}:{sf}:{','.join(map(str, spec)) if spec else '-'}")
@@ -519,8 +521,8 @@ def run_process(sc, rnd):
         tokens.append('R')
     if outcome == 'killed':
         mem = '-'
-    elif outcome.startswith('failed'):
-        mem = '_'
+    elif outcome in ('failed:eof', 'failed:emptySpec'):
+        mem = '_'       # failed while loading: nothing was run
     elif bs is not None:
         mem = '|'.join(show_rec(ident(s._inputs), s._results, tagged) for s in bs._simulations) or '_'
     tokens.append('O')
@@ -550,4 +552,460 @@ def run_scenario(sc, judge=None):
 
 
 def public(sc):
-    return {k: v for k, v in sc.items() if k in ('fmt', 'rounds', 'legacy', 'tagged', 'seed')}
+    return {k: v for k, v in sc.items() if k in ('fmt', 'rounds', 'legacy', 'tagged', 'seed', 'hyp')}
+
+
+# ------------------------------------------------------------------------ running many
+
+def _worker(sc):
+    try:
+        viol = []
+        op, impl, infos = run_scenario(sc, judge=Judge(viol) if sc.get('judge') else None)
+        return {'op': op, 'impl': impl, 'infos': infos, 'viol': viol, 'err': None}
+    except BaseException as e:  # noqa: BLE001
+        import traceback
+        return {'op': 'batch j 1 O', 'impl': f'HARNESS-EXC {type(e).__name__}: {e}', 'infos': [], 'viol': [],
+                'err': traceback.format_exc()[-1500:]}
+
+
+def run_many(scs, workers=None):
+    scs = list(scs)
+    if not scs:
+        return []
+    workers = workers or min(8, os.cpu_count() or 1)
+    if workers <= 1 or len(scs) < 8:
+        return [_worker(sc) for sc in scs]
+    import multiprocessing as mp
+    import panqec.simulation  # noqa: F401  (imported before the fork)
+    ctxm = mp.get_context('fork')
+    with ctxm.Pool(workers) as pool:
+        return pool.map(_worker, scs, chunksize=max(1, len(scs) // (workers * 8)))
+
+
+# ------------------------------------------------------------------------------ generators
+
+ACTIONS = {'t': ['kill', 'ki'],
+           'o': ['kill', 'ki', 'killw:zero', 'killw:header', 'killw:middle', 'killw:last', 'killw:all', 'kiw'],
+           'r': ['kill', 'ki', 'killafter']}
+SFS = [1, 2, 3, 5]
+
+
+def dry_trace(fmt, rnd, legacy=False, pre=None):
+    sc = {'fmt': fmt, 'rounds': (pre or []) + [dict(rnd, plan=[])], 'legacy': legacy}
+    _, _, infos = run_scenario(sc)
+    return infos[-1]['trace']
+
+
+def grow(rng, spec, k):
+    rest = [e for e in range(len(ENTRIES)) if e not in spec]
+    add = [rest[i] for i in rng.permutation(len(rest))[:k]]
+    return list(spec) + [int(a) for a in add]
+
+
+def systematic(rng, fmt, base, restarts, legacy=False, pre=None, subsample=None):
+    """every hook of the process `base` x every action applicable there, followed by each restart"""
+    trace = dry_trace(fmt, base, legacy, pre)
+    out = []
+    for k, kind in enumerate(trace):
+        for act in ACTIONS[kind]:
+            if legacy and act == 'killafter':
+                continue
+            if act == 'kiw' and fmt != 'json':
+                continue
+            plans = [[[k, act]]]
+            if act in ('ki', 'kiw'):
+                # the interrupted save is retried: stop the retry as well
+                plans.append([[k, act], [k + 1, 'killw:middle']])
+                plans.append([[k, act], [k + 2, 'ki']])
+            for plan in plans:
+                for rs in restarts:
+                    out.append({'fmt': fmt, 'legacy': legacy,
+                                'rounds': (pre or []) + [dict(base, plan=plan)] + [dict(r, plan=[]) for r in rs],
+                                'tag': f'{kind}:{act}', 'hyp': not legacy})
+    if subsample is not None and len(out) > subsample:
+        idx = sorted(rng.permutation(len(out))[:subsample])
+        out = [out[i] for i in idx]
+    return out
+
+
+def random_scenarios(rng, count, within=True):
+    """several stop/restart rounds on one file; `within` = inside the hypotheses of the theorems
+    (grown specifications without duplicates, non-decreasing targets, save frequency >= 1)"""
+    out = []
+    for _ in range(count):
+        fmt = 'gz' if rng.random() < 0.5 else 'json'
+        nr = int(rng.integers(2, 6))
+        spec = grow(rng, [], int(rng.integers(1, 4)))
+        n = int(rng.integers(1, 5))
+        rounds = []
+        for r in range(nr):
+            if r > 0:
+                if rng.random() < 0.5:
+                    spec = grow(rng, spec, int(rng.integers(1, 3)))
+                if rng.random() < 0.6:
+                    n += int(rng.integers(0, 4))
+            sf = int(rng.choice(SFS + [n + 1, n + 4]))
+            plan = []
+            if r < nr - 1 or rng.random() < 0.3:
+                h = int(rng.integers(0, 3 + 2 * len(spec) * max(n, 1)))
+                for _ in range(int(rng.integers(1, 3))):
+                    acts = ['kill', 'ki', 'killw:zero', 'killw:header', 'killw:middle', 'killw:last', 'killw:all',
+                            'kiw', 'killafter']
+                    plan.append([h, str(rng.choice(acts))])
+                    h += int(rng.integers(1, 6))
+            via = 'ranges' if rng.random() < 0.3 else 'runs'
+            rounds.append({'spec': list(spec), 'n': n, 'sf': sf, 'plan': plan, 'via': via})
+        out.append({'fmt': fmt, 'rounds': rounds, 'tag': 'random-rounds', 'hyp': True})
+    return out
+
+
+def outside_scenarios(rng, count):
+    """outside the hypotheses of the theorems (compared with the model only): decreasing targets,
+    shrunk / reordered / duplicated specifications, empty specification, save frequency 0, n = 0"""
+    out = []
+    kinds = ['decrease', 'shrink', 'reorder', 'dup', 'empty', 'sf0', 'n0']
+    for c in range(count):
+        kind = kinds[c % len(kinds)]
+        fmt = 'gz' if rng.random() < 0.5 else 'json'
+        spec = grow(rng, [], int(rng.integers(2, 4)))
+        n = int(rng.integers(2, 5))
+        r1 = {'spec': spec, 'n': n, 'sf': int(rng.choice(SFS)), 'plan': []}
+        if rng.random() < 0.4:
+            r1['plan'] = [[int(rng.integers(0, 12)), 'kill']]
+        r2 = {'spec': list(spec), 'n': n + 1, 'sf': int(rng.choice(SFS)), 'plan': []}
+        if kind == 'decrease':
+            r2['n'] = max(0, n - int(rng.integers(1, 3)))
+        elif kind == 'shrink':
+            r2['spec'] = spec[1:]
+        elif kind == 'reorder':
+            r2['spec'] = spec[::-1]
+        elif kind == 'dup':
+            r1['spec'] = spec + [spec[0]]
+            r2['spec'] = spec + [spec[0]]
+        elif kind == 'empty':
+            r2['spec'] = []
+        elif kind == 'sf0':
+            r2['sf'] = 0
+        elif kind == 'n0':
+            r1['n'] = 0
+        r3 = {'spec': grow(rng, r2['spec'], 1), 'n': n + 2, 'sf': 2, 'plan': []}
+        out.append({'fmt': fmt, 'rounds': [r1, r2, r3], 'tag': f'outside:{kind}'})
+    return out
+
+
+def foreign_scenarios(rng, count, wellformed_only=False):
+    """results files that exist before the run: torn / empty files, records of other simulations
+    (differing in one component), records of requested simulations, malformed records"""
+    out = []
+    variants = ['rate', 'size', 'noise', 'decoder', 'code']
+    for c in range(count):
+        fmt = 'gz' if rng.random() < 0.5 else 'json'
+        spec = grow(rng, [], int(rng.integers(1, 4)))
+        n = int(rng.integers(2, 5))
+        base = FOREIGN_BASE + 1000 * c
+        mode = c % 4
+        puts = []
+        if mode == 0 and not wellformed_only:
+            kind = ['torn', 'empty', 'absent'][int(rng.integers(0, 3))]
+            puts = [{'kind': kind, 'frac': float(rng.choice([0.01, 0.3, 0.6, 0.99]))}]
+            tag = f'put:{kind}'
+        else:
+            recs = []
+            nid = base
+            # other simulations, each differing from a requested one in exactly one component
+            for e in spec:
+                if rng.random() < 0.7:
+                    k = int(rng.integers(1, 6))
+                    recs.append({'entry': e, 'variant': str(rng.choice(variants)),
+                                 'ids': list(range(nid, nid + k))})
+                    nid += k
+            # an entry of the universe that is not requested
+            others = [e for e in range(len(ENTRIES)) if e not in spec]
+            e = int(rng.choice(others))
+            recs.append({'entry': e, 'ids': list(range(nid, nid + 3))})
+            nid += 3
+            # requested simulations that already have results
+            for e in spec:
+                if rng.random() < 0.5:
+                    k = int(rng.integers(0, n + 1))
+                    recs.append({'entry': e, 'ids': list(range(nid, nid + k))})
+                    nid += k
+            if mode == 3 and not wellformed_only:
+                r = recs[-1]
+                r['n_runs'] = len(r['ids']) + 1
+                r['len_su'] = max(0, len(r['ids']) - 1)
+                tag = 'put:malformed-doc'
+            else:
+                tag = 'put:foreign-doc'
+            order = rng.permutation(len(recs))
+            puts = [{'kind': 'doc', 'records': [recs[i] for i in order]}]
+        r1 = {'spec': spec, 'n': n, 'sf': int(rng.choice(SFS)), 'plan': [], 'puts': puts}
+        if rng.random() < 0.5:
+            r1['plan'] = [[int(rng.integers(0, 10)), str(rng.choice(['kill', 'killw:middle', 'ki']))]]
+        r2 = {'spec': grow(rng, spec, int(rng.integers(0, 2))), 'n': n + int(rng.integers(0, 3)),
+              'sf': int(rng.choice(SFS)), 'plan': []}
+        out.append({'fmt': fmt, 'rounds': [r1, r2], 'tag': tag, 'hyp': tag == 'put:foreign-doc'})
+    return out
+
+
+def restart_variants(rng, base, how_many):
+    """restart configurations after `base`: same / grown specification, same / larger target"""
+    spec, n = base['spec'], base['n']
+    cands = [
+        [{'spec': list(spec), 'n': n, 'sf': base['sf']}],
+        [{'spec': grow(rng, spec, 1), 'n': n + 1, 'sf': int(rng.choice(SFS))}],
+        [{'spec': list(spec), 'n': n + 2, 'sf': n + 5}],
+        [{'spec': grow(rng, spec, 2), 'n': n, 'sf': 1},
+         {'spec': grow(rng, spec, 2), 'n': n + 1, 'sf': 2}],
+    ]
+    # the second element of the last candidate must extend the first
+    cands[3][1]['spec'] = grow(rng, cands[3][0]['spec'], 1)
+    return cands[:how_many]
+
+
+def systematic_set(ctx, rng, oracle=False):
+    thorough = ctx.thorough
+    bases = [{'spec': [0, 1], 'n': 3, 'sf': 1, 'via': 'ranges'}, {'spec': [2, 6], 'n': 3, 'sf': 2},
+             {'spec': [4], 'n': 2, 'sf': 5}, {'spec': [1, 3, 8], 'n': 4, 'sf': 3}]
+    if thorough:
+        bases += [{'spec': [0, 5, 7, 10], 'n': 5, 'sf': 2}, {'spec': [9], 'n': 6, 'sf': 1},
+                  {'spec': [2, 3], 'n': 5, 'sf': 5}, {'spec': [11, 0], 'n': 1, 'sf': 1}]
+    scs = []
+    for fmt in ('json', 'gz'):
+        for bi, base in enumerate(bases):
+            nrest = 4 if thorough else (2 if bi < 2 else 1)
+            rs = restart_variants(rng, base, 4)
+            rs = [rs[i] for i in rng.permutation(4)[:nrest]]
+            sub = None if thorough else (70 if oracle else 110)
+            scs += systematic(rng, fmt, base, rs, subsample=sub)
+            # crash points of a *restarted* process (file already present: one save_json per save)
+            if bi in (0, 3) or thorough:
+                pre = [dict(base, plan=[])]
+                b2 = {'spec': grow(rng, base['spec'], 1), 'n': base['n'] + 2, 'sf': int(rng.choice(SFS))}
+                rs2 = [[{'spec': list(b2['spec']), 'n': b2['n'], 'sf': 1}]]
+                scs += systematic(rng, fmt, b2, rs2, pre=pre, subsample=None if thorough else 40)
+    return scs
+
+
+# -------------------------------------------------------------------------- correspondence
+
+def correspondence(ctx):
+    import panqec.simulation  # noqa: F401
+    rng = ctx.np_rng(12)
+    streams = []
+
+    def stream(name, scs):
+        s = Stream(name)
+        res = run_many(scs)
+        for sc, r in zip(scs, res):
+            if r['err']:
+                ctx.notes.append(f'harness exception in {name}: {r["err"][-300:]}')
+            s.add(r['op'], r['impl'], public(sc), nontrivial=True, tag=sc.get('tag'))
+            for info in r['infos']:
+                for f in info['fired']:
+                    t = f"fired:{f['type']}:{f['action']}"
+                    s.hist[t] = s.hist.get(t, 0) + 1
+                o = 'outcome:' + info['outcome']
+                s.hist[o] = s.hist.get(o, 0) + 1
+        streams.append(s.run())
+
+    stream('crash-points-systematic', systematic_set(ctx, rng))
+    stream('random-stop-restart-rounds', random_scenarios(rng, 400 if ctx.thorough else 90))
+    stream('pre-existing-files', foreign_scenarios(rng, 200 if ctx.thorough else 48))
+    stream('outside-hypotheses', outside_scenarios(rng, 140 if ctx.thorough else 35))
+    # the old in-place protocol (regression example): the same machine with atomic := false,
+    # compared with BatchSimulation running the pre-fix save_json
+    leg = []
+    for fmt in ('json', 'gz'):
+        base = {'spec': [0, 1], 'n': 3, 'sf': 1}
+        leg += systematic(rng, fmt, base, [[{'spec': [0, 1], 'n': 3, 'sf': 1}]], legacy=True,
+                          subsample=None if ctx.thorough else 40)
+    stream('legacy-inplace-protocol', leg)
+    if ctx.thorough:
+        streams.append(subprocess_stream(ctx, rng))
+    return streams
+
+
+# ---------------------------------------------------------------------------------- oracle
+
+def _is_prefix(a, b):
+    return len(a) <= len(b) and list(b[:len(a)]) == list(a)
+
+
+class Judge:
+    """The property as stated, evaluated on what the implementation left on disk (independent of
+    the Lean model).  Called after every process of a scenario."""
+
+    def __init__(self, viol):
+        self.viol = viol
+        self.base = None        # content of the last completed save observed so far
+
+    def bad(self, sc, kind, msg):
+        self.viol.append({'kind': kind, 'round': sc['state']['round'], 'msg': msg[:400]})
+
+    def check_step(self, sc, prev, cur, spec, where):
+        """every record of a completed save must stay an unchanged prefix"""
+        for p in prev:
+            i = ident(p.get('inputs', {}))
+            if i not in spec:
+                continue
+            cands = [c for c in cur if ident(c.get('inputs', {})) == i]
+            if not cands:
+                self.bad(sc, 'save-lost', f'{where}: record of simulation {i} of the last completed save is gone')
+                continue
+            c = cands[0]['results']
+            pr = p['results']
+            for key in ('effective_error', 'success', 'codespace'):
+                a = [list(x) if isinstance(x, list) else x for x in pr.get(key, [])]
+                b = [list(x) if isinstance(x, list) else x for x in c.get(key, [])]
+                if not _is_prefix(a, b):
+                    self.bad(sc, 'prefix-changed',
+                             f'{where}: {key} of simulation {i}: saved {len(a)} entries are not a prefix of the '
+                             f'later {len(b)} entries')
+                    break
+
+    def check_ids(self, sc, data, spec, where):
+        log = sc['state']['log']
+        seen = {}
+        for pos, r in enumerate(data):
+            i = ident(r.get('inputs', {}))
+            res = r.get('results', {})
+            for j, x in enumerate(res.get('effective_error', [])):
+                tid = int(list(x)[-1])
+                if tid in seen:
+                    self.bad(sc, 'trial-twice', f'{where}: trial {tid} occurs in record {seen[tid]} and again in '
+                                                f'record {pos}')
+                    return
+                seen[tid] = pos
+                lg = log.get(tid)
+                if lg is None:
+                    self.bad(sc, 'unknown-trial', f'{where}: trial {tid} was never run')
+                    return
+                if lg['entry'] != i:
+                    self.bad(sc, 'foreign-adopted', f'{where}: record of simulation {i} contains trial {tid} that '
+                                                    f'was run for simulation {lg["entry"]}')
+                    return
+                if list(x)[:-1] != lg['ee']:
+                    self.bad(sc, 'trial-changed', f'{where}: effective_error of trial {tid} differs from the run')
+                    return
+                su, cs = res.get('success', []), res.get('codespace', [])
+                if j < len(su) and bool(su[j]) != lg['su'] or j < len(cs) and bool(cs[j]) != lg['cs']:
+                    self.bad(sc, 'trial-changed', f'{where}: success/codespace of trial {tid} differ from the run')
+                    return
+
+    def __call__(self, sc, rnd, info):
+        st = sc['state']
+        tagged = sc.get('tagged', True)
+        spec, n = info['spec'], info['n']
+        out = info['outcome']
+        if rnd.get('puts'):
+            cls0, data0 = st.get('after_puts', ('A', None))
+            self.base = data0 if cls0 == 'C' else None
+        if out.startswith('failed') or out.startswith('EXC'):
+            self.bad(sc, 'restart-raised', f'process {st["round"]} ended with {out} {info["exc"]}')
+        cls, data = read_doc(sc['out'])
+        # chain of completed saves: each must extend the previous one
+        chain = [s['data'] for s in st['saves'] if s['round'] == st['round'] and s['cls'] == 'C']
+        if any(s['round'] == st['round'] and s['cls'] != 'C' for s in st['saves']):
+            self.bad(sc, 'save-lost', 'results file unreadable right after a completed save')
+        if cls == 'C':
+            chain.append(data)
+        elif self.base is not None or chain:
+            self.bad(sc, 'save-lost', f'results file is {cls} although a save had completed')
+        prev = self.base
+        for k, cur in enumerate(chain):
+            if prev is not None:
+                self.check_step(sc, prev, cur, spec, f'process {st["round"]} save {k}')
+            prev = cur
+        if chain:
+            self.base = chain[-1]
+        if cls == 'C' and tagged:
+            self.check_ids(sc, [r for r in data if ident(r.get('inputs', {})) in spec], spec,
+                           f'file after process {st["round"]}')
+        if out == 'done' and n >= 1:
+            if cls != 'C':
+                self.bad(sc, 'wrong-count', f'completed run left the results file {cls}')
+                return
+            ids = [ident(r.get('inputs', {})) for r in data]
+            if sorted(i for i in ids if i in spec) != sorted(spec):
+                self.bad(sc, 'wrong-records', f'completed run: records {ids} for specification {list(spec)}')
+            for r in data:
+                if ident(r.get('inputs', {})) not in spec:
+                    continue
+                res = r.get('results', {})
+                lens = [len(res.get(k, [])) for k in ('effective_error', 'success', 'codespace')]
+                if res.get('n_runs') != n or lens != [n, n, n]:
+                    self.bad(sc, 'wrong-count',
+                             f'completed run with n_trials={n}: simulation {ident(r.get("inputs", {}))} has '
+                             f'n_runs={res.get("n_runs")} list lengths={lens}')
+                    break
+
+
+def check_scenario(sc):
+    sc = dict(sc)
+    sc['judge'] = True
+    r = _worker(sc)
+    return r['viol']
+
+
+def oracle_scenarios(ctx, rng, deep):
+    scs = systematic_set(ctx, rng, oracle=True) if deep else []
+    if not deep:
+        # crash points of one small configuration, all actions, both formats
+        for fmt in ('json', 'gz'):
+            base = {'spec': [0, 7], 'n': 3, 'sf': 2}
+            rs = [[{'spec': [0, 7, 2], 'n': 4, 'sf': 1}]]
+            scs += systematic(rng, fmt, base, rs, subsample=60)
+            pre = [dict(base, plan=[])]
+            b2 = {'spec': [0, 7, 2], 'n': 5, 'sf': 3}
+            scs += systematic(rng, fmt, b2, [[{'spec': [0, 7, 2], 'n': 5, 'sf': 1}]], pre=pre, subsample=30)
+    scs += random_scenarios(rng, 300 if deep else 60)
+    scs += foreign_scenarios(rng, 120 if deep else 32, wellformed_only=True)
+    # untagged runs: the recorded values themselves (seeded generators) must stay a prefix
+    for sc in random_scenarios(rng, 40 if deep else 10):
+        sc['tagged'] = False
+        sc['tag'] = 'untagged'
+        scs.append(sc)
+    return scs
+
+
+def oracle(ctx, deep=False, broken=None):
+    import panqec.simulation  # noqa: F401
+    rng = ctx.np_rng(112)
+    scs = []
+    # inputs on which the correspondence differed are judged first
+    for b in broken or []:
+        if b.get('kind') == 'correspondence' and isinstance(b.get('detail'), list):
+            for m in b['detail']:
+                inp = m.get('input') if isinstance(m, dict) else None
+                if isinstance(inp, dict) and 'rounds' in inp and inp.get('hyp') and not inp.get('legacy'):
+                    scs.append(copy.deepcopy(inp))
+    scs += oracle_scenarios(ctx, rng, deep)
+    for sc in scs:
+        sc['judge'] = True
+    res = run_many(scs)
+    best = {}
+    nerr = 0
+    for sc, r in zip(scs, res):
+        if r['err']:
+            nerr += 1
+            ctx.notes.append('oracle harness exception: ' + r['err'][-300:])
+        for v in r['viol']:
+            key = {'kind': v['kind'], 'fmt': sc['fmt']}
+            ks = json.dumps(key, sort_keys=True)
+            inp = public(sc)
+            size = len(json.dumps(inp))
+            if ks not in best or size < best[ks][0]:
+                best[ks] = (size, {'input': inp, 'observed': f"{v['kind']}: {v['msg']}", 'match': key})
+    fails = [best[k][1] for k in sorted(best, key=lambda k: best[k][0])]
+    return fails, {'evaluations': len(scs), 'harness_exceptions': nerr,
+                   'processes': sum(len(sc['rounds']) for sc in scs)}
+
+
+def replay(ctx, payload):
+    import panqec.simulation  # noqa: F401
+    return bool(check_scenario(copy.deepcopy(payload['input'])))
+
+
+def subprocess_stream(ctx, rng):
+    return Stream('subprocess-real-kill')
